@@ -36,7 +36,7 @@ const (
 	LkRaw     = 0x55
 	LkDagJson = 0x0129
 	LkJson    = 0x0200
-	LkDagPb   = 0x70 // stand-in: dag-cbor functions registered under the dag-pb code so that CIDv0 links load
+	LkDagPb   = 0x70 // no implementation here: the global registry binds it to the dag-cbor functions (LkInit) so that CIDv0 links load
 )
 
 type lkCodec struct {
@@ -50,7 +50,113 @@ var LkCodecs = map[uint64]lkCodec{
 	LkRaw:     {raw.Encode, raw.Decode},
 	LkDagJson: {dagjson.Encode, dagjson.Decode},
 	LkJson:    {json.Encode, json.Decode},
-	LkDagPb:   {dagcbor.Encode, dagcbor.Decode},
+}
+
+// LkReg describes a multicodec registry: which implementation (named by its canonical code in
+// LkCodecs) a code number is bound to, separately for encoding and decoding.
+type LkReg struct {
+	Global bool // the process-wide default registry, used through cidlink.DefaultLinkSystem()
+	Enc    map[uint64]uint64
+	Dec    map[uint64]uint64
+}
+
+// LkGlobalReg is what multicodec.DefaultRegistry holds once the codec packages are linked in and
+// LkInit has run.
+func LkGlobalReg() *LkReg {
+	m := func() map[uint64]uint64 {
+		return map[uint64]uint64{LkDagCbor: LkDagCbor, LkCbor: LkCbor, LkRaw: LkRaw, LkDagJson: LkDagJson, LkJson: LkJson, LkDagPb: LkDagCbor}
+	}
+	return &LkReg{Global: true, Enc: m(), Dec: m()}
+}
+
+// Text: "G" for the global registry, else "R:" + sorted "<code>=<impl>[:e|:d]" (:e encoder only,
+// :d decoder only), codes in hex.
+func (rg *LkReg) Text() string {
+	if rg.Global {
+		return "G"
+	}
+	var ents []string
+	codes := map[uint64]bool{}
+	for c := range rg.Enc {
+		codes[c] = true
+	}
+	for c := range rg.Dec {
+		codes[c] = true
+	}
+	for c := range codes {
+		e, he := rg.Enc[c]
+		d, hd := rg.Dec[c]
+		switch {
+		case he && hd && e == d:
+			ents = append(ents, fmt.Sprintf("%x=%x", c, e))
+		case he && hd:
+			ents = append(ents, fmt.Sprintf("%x=%x:e", c, e), fmt.Sprintf("%x=%x:d", c, d))
+		case he:
+			ents = append(ents, fmt.Sprintf("%x=%x:e", c, e))
+		default:
+			ents = append(ents, fmt.Sprintf("%x=%x:d", c, d))
+		}
+	}
+	sort.Strings(ents)
+	return "R:" + strings.Join(ents, ",")
+}
+
+func LkParseReg(s string) (*LkReg, error) {
+	if s == "G" {
+		return LkGlobalReg(), nil
+	}
+	if !strings.HasPrefix(s, "R:") {
+		return nil, fmt.Errorf("bad registry %q", s)
+	}
+	rg := &LkReg{Enc: map[uint64]uint64{}, Dec: map[uint64]uint64{}}
+	if s == "R:" {
+		return rg, nil
+	}
+	for _, ent := range strings.Split(s[2:], ",") {
+		kv := strings.SplitN(ent, "=", 2)
+		if len(kv) != 2 {
+			return nil, fmt.Errorf("bad registry entry %q", ent)
+		}
+		code, err := strconv.ParseUint(kv[0], 16, 64)
+		if err != nil {
+			return nil, err
+		}
+		mode := byte(0)
+		v := kv[1]
+		if i := strings.IndexByte(v, ':'); i >= 0 {
+			mode = v[i+1]
+			v = v[:i]
+		}
+		impl, err := strconv.ParseUint(v, 16, 64)
+		if err != nil {
+			return nil, err
+		}
+		if _, ok := LkCodecs[impl]; !ok {
+			return nil, fmt.Errorf("unknown implementation %x", impl)
+		}
+		if mode != 'd' {
+			rg.Enc[code] = impl
+		}
+		if mode != 'e' {
+			rg.Dec[code] = impl
+		}
+	}
+	return rg, nil
+}
+
+// LinkSystem builds the link system this registry description stands for.
+func (rg *LkReg) LinkSystem() linking.LinkSystem {
+	if rg.Global {
+		return cidlink.DefaultLinkSystem()
+	}
+	reg := multicodec.Registry{}
+	for c, impl := range rg.Enc {
+		reg.RegisterEncoder(c, LkCodecs[impl].Enc)
+	}
+	for c, impl := range rg.Dec {
+		reg.RegisterDecoder(c, LkCodecs[impl].Dec)
+	}
+	return cidlink.LinkSystemUsingMulticodecRegistry(reg)
 }
 
 // LkInit makes CIDv0 links loadable: this repository registers no codec for dag-pb (0x70), so the
@@ -60,7 +166,7 @@ func LkInit() {
 	multicodec.RegisterDecoder(LkDagPb, dagcbor.Decode)
 }
 
-// LkTableCodec: the model takes this codec's behaviour from tables printed by the harness.
+// LkTableCodec: the model takes this implementation's behaviour from tables printed by the harness.
 func LkTableCodec(c uint64) bool { return c == LkDagJson || c == LkJson }
 
 // ---- link prototypes
@@ -170,6 +276,12 @@ func (t *LkTables) Encode(code uint64, v *Val, n datamodel.Node) {
 	if !LkTableCodec(code) {
 		return
 	}
+	t.EncodeChunks(code, v, n)
+}
+
+// EncodeChunks records the write sequence of any implementation (for the concretely modelled
+// codecs the driver takes the bytes from the model and only the write boundaries from here).
+func (t *LkTables) EncodeChunks(code uint64, v *Val, n datamodel.Node) {
 	k := fmt.Sprintf("E%x.%s", code, v.Text())
 	if _, ok := t.e[k]; ok {
 		return
@@ -277,7 +389,7 @@ func LkErrClass(err error, rest string) string {
 		return "err.hash_mismatch"
 	case errors.As(err, &su):
 		return "err.setup"
-	case err == LkErrRead || err == LkErrWrite:
+	case err == LkErrRead || err == LkErrWrite || err == io.ErrShortWrite:
 		return "err.io"
 	case err == LkErrOpen || err == LkErrWOpen || errors.Is(err, os.ErrNotExist) || err.Error() == "404":
 		return "err.open"
@@ -290,7 +402,9 @@ func LkErrClass(err error, rest string) string {
 // ---- adversarial reader / writer
 
 // LkReader delivers the chunks one Read at a time (never more than one chunk per call), then EOF or
-// a sticky read error.  eofWithLast: the final chunk is returned together with io.EOF.
+// a sticky read error.  An EMPTY chunk is one Read that returns (0, nil) — legal for an io.Reader
+// ("nothing happened", the caller retries).  EOFWithLast: the final chunk is returned together with
+// io.EOF.
 type LkReader struct {
 	Chunks      [][]byte
 	Fail        bool
@@ -303,41 +417,88 @@ func (r *LkReader) Read(p []byte) (int, error) {
 	if len(p) == 0 {
 		return 0, nil
 	}
-	for r.i < len(r.Chunks) && r.off >= len(r.Chunks[r.i]) {
-		r.i++
-		r.off = 0
-	}
 	if r.i >= len(r.Chunks) {
 		if r.Fail {
 			return 0, LkErrRead
 		}
 		return 0, io.EOF
 	}
-	n := copy(p, r.Chunks[r.i][r.off:])
+	c := r.Chunks[r.i]
+	if len(c) == 0 {
+		r.i++
+		return 0, nil
+	}
+	n := copy(p, c[r.off:])
 	r.off += n
-	if r.EOFWithLast && !r.Fail && r.i == len(r.Chunks)-1 && r.off >= len(r.Chunks[r.i]) {
+	if r.off >= len(c) {
 		r.i++
 		r.off = 0
-		return n, io.EOF
+		if r.EOFWithLast && !r.Fail && r.i == len(r.Chunks) {
+			return n, io.EOF
+		}
 	}
 	return n, nil
 }
 
 func (r *LkReader) Close() error { r.Closed = true; return nil }
 
-// LkWriter accepts writes until its capacity would be exceeded; from then on every write fails.
+// LkWriter: a storage writer with faults.  Cap >= 0: it fails once more than Cap bytes would have
+// been accepted, and keeps failing (sticky).  Sched[i] describes its i-th Write call (0-based;
+// calls beyond the schedule succeed): "f" fails (0, error), "s<n>" accepts n bytes and returns
+// (n, nil) — a short write — when n < len(p).
 type LkWriter struct {
 	Cap    int // < 0: unlimited
+	Sched  []string
 	Buf    bytes.Buffer
-	Failed bool
+	Failed bool // the capacity failure happened
+	calls  int
 }
 
 func (w *LkWriter) Write(p []byte) (int, error) {
+	i := w.calls
+	w.calls++
 	if w.Failed || (w.Cap >= 0 && w.Buf.Len()+len(p) > w.Cap) {
 		w.Failed = true
 		return 0, LkErrWrite
 	}
+	if i < len(w.Sched) {
+		switch a := w.Sched[i]; {
+		case a == "f":
+			return 0, LkErrWrite
+		case strings.HasPrefix(a, "s"):
+			n, _ := strconv.Atoi(a[1:])
+			if n < len(p) {
+				w.Buf.Write(p[:n])
+				return n, nil
+			}
+		}
+	}
 	return w.Buf.Write(p)
+}
+
+// LkFaultWriter forwards to W, except that its i-th Write call follows Sched[i] as in LkWriter
+// ("f": fail this call, nothing forwarded; "s<n>": forward n bytes, return (n, nil)).
+type LkFaultWriter struct {
+	W     io.Writer
+	Sched []string
+	calls int
+}
+
+func (w *LkFaultWriter) Write(p []byte) (int, error) {
+	i := w.calls
+	w.calls++
+	if i < len(w.Sched) {
+		switch a := w.Sched[i]; {
+		case a == "f":
+			return 0, LkErrWrite
+		case strings.HasPrefix(a, "s"):
+			n, _ := strconv.Atoi(a[1:])
+			if n < len(p) {
+				return w.W.Write(p[:n])
+			}
+		}
+	}
+	return w.W.Write(p)
 }
 
 // LkSplit cuts data at the given offsets (ascending, inside the data) into non-empty chunks.
@@ -356,10 +517,15 @@ func LkSplit(data []byte, cuts ...int) [][]byte {
 	return out
 }
 
+// LkChunksText: chunks in hex joined by "+"; an empty chunk is "_"; no chunks at all is "".
 func LkChunksText(ch [][]byte) string {
 	parts := make([]string, len(ch))
 	for i, c := range ch {
-		parts[i] = Hex(string(c))
+		if len(c) == 0 {
+			parts[i] = "_"
+		} else {
+			parts[i] = Hex(string(c))
+		}
 	}
 	return strings.Join(parts, "+")
 }
@@ -370,7 +536,28 @@ func LkParseChunks(s string) [][]byte {
 	}
 	var out [][]byte
 	for _, p := range strings.Split(s, "+") {
-		out = append(out, []byte(UnHex(p)))
+		if p == "_" {
+			out = append(out, []byte{})
+		} else {
+			out = append(out, []byte(UnHex(p)))
+		}
+	}
+	return out
+}
+
+// LkWithEmpty inserts an empty chunk (a (0, nil) read) before chunk number at (at == len: after
+// the last chunk, i.e. right before EOF / the read error).
+func LkWithEmpty(ch [][]byte, at ...int) [][]byte {
+	var out [][]byte
+	for i := 0; i <= len(ch); i++ {
+		for _, a := range at {
+			if a == i {
+				out = append(out, []byte{})
+			}
+		}
+		if i < len(ch) {
+			out = append(out, ch[i])
+		}
 	}
 	return out
 }
@@ -400,7 +587,7 @@ func LkInDomain(code uint64, v *Val) bool {
 	switch code {
 	case LkRaw:
 		return v.Kind == KBytes
-	case LkDagCbor, LkDagPb:
+	case LkDagCbor:
 		return true
 	case LkCbor:
 		return lkWalk(v, func(x *Val) bool { return x.Kind != KLink })
@@ -431,7 +618,7 @@ func LkInDomain(code uint64, v *Val) bool {
 // LkGenCfg is the generator configuration matching LkInDomain (the filter still applies).
 func LkGenCfg(code uint64) *GenCfg {
 	switch code {
-	case LkDagCbor, LkDagPb:
+	case LkDagCbor:
 		return &GenCfg{MaxDepth: 3, MaxWidth: 4, Links: true, UintBeyond: true, BadUTF8: true}
 	case LkCbor:
 		return &GenCfg{MaxDepth: 3, MaxWidth: 4, UintBeyond: true, BadUTF8: true}
